@@ -28,7 +28,7 @@ fn owned(check: &str, class: &str) -> bool {
 		"C17" => matches!(class, "no_progress" | "hang" | "panic" | "close_failed" | "deadlock"),
 		"C10" => reads || matches!(class, "get_at_mismatch" | "history_mismatch" | "history_order" | "background_error" | "reopen_failed"),
 		"C11" => reads || matches!(class, "background_error" | "reopen_failed" | "close_failed"),
-		"C14" => reads || matches!(class, "checkpoint_failed" | "restore_failed" | "background_error" | "reopen_failed" | "commit_error" | "standalone_mismatch"),
+		"C14" => reads || class.starts_with("horizon_") || matches!(class, "checkpoint_failed" | "restore_failed" | "background_error" | "reopen_failed" | "commit_error" | "standalone_mismatch"),
 		_ => true,
 	}
 }
@@ -303,9 +303,28 @@ fn gen_c06(case_seed: u64, _case: u64, tier: Tier) -> Plan {
 		opts_b.memtable = opts.memtable; // the logical history's transactions must fit
 	}
 	let b = with_physical(&mut rng, &logical, 25, true);
+	// "what is cached": with versioning on, history queries (whole range and timestamp
+	// windows; their answers are C10's business and are not judged here) run before some of
+	// the probes and fill the caches through another code path than gets and scans do
+	let warm = |rng: &mut Rng, steps: Vec<Step>| -> Vec<Step> {
+		let mut out = Vec::new();
+		for s in steps {
+			if matches!(s, Step::Probe) && rng.chance(1, 2) {
+				out.push(Step::Begin { a: 2, mode: ModeS::ReadOnly });
+				let ts_range = if rng.chance(2, 3) { Some((0u64, 1u64 << 40)) } else { None };
+				out.push(Step::History { a: 2, lo: 0, hi: nkeys - 1, tomb: rng.chance(1, 2), ts_range, limit: None, rev: rng.chance(1, 4) });
+				out.push(Step::DropTxn { a: 2 });
+			}
+			out.push(s);
+		}
+		out
+	};
+	let (a, b) = (warm(&mut rng, a), warm(&mut rng, b));
 	let mut pa = base_plan("C06", case_seed, opts, keys.clone(), a);
 	pa.gate_tasks = true; // store's own tasks stay parked: only planned placements
+	pa.params.insert("history_unjudged".into(), 1);
 	let mut pb = base_plan("C06", case_seed ^ 0xb, opts_b, keys, b);
+	pb.params.insert("history_unjudged".into(), 1);
 	pb.gate_tasks = rng.chance(1, 2);
 	pa.twin = Some(Box::new(pb));
 	pa
@@ -642,6 +661,8 @@ fn gen_concurrent(case_seed: u64, tier: Tier, id: &str) -> Plan {
 	let mut st = vec![St::Idle; n_actors as usize];
 	let mut left = vec![0u32; n_actors as usize];
 	let mut steps = Vec::new();
+	// a third of C04's cases inject commit-log write errors (rollback paths of the pipeline)
+	let c04_faults = id == "C04" && rng.chance(1, 3);
 	for _ in 0..total {
 		let a = rng.below(n_actors as u64) as u8;
 		match st[a as usize] {
@@ -670,6 +691,19 @@ fn gen_concurrent(case_seed: u64, tier: Tier, id: &str) -> Plan {
 					} else if rng.chance(1, 8) {
 						steps.push(Step::Delete { a, k, ts: None });
 						left[a as usize] = left[a as usize].saturating_sub(60);
+					} else if id == "C04" && rng.chance(1, if c04_faults { 2 } else { 6 }) && left[a as usize] >= 300 {
+						// the same key more than once in one batch: written on both sides of a
+						// savepoint, or with two explicit timestamps (the conflict map sees the
+						// key twice; its bookkeeping for rollbacks must cope)
+						if rng.chance(1, 2) {
+							steps.push(Step::Set { a, k, v: tags.next(10), ts: None });
+							steps.push(Step::Savepoint { a });
+							steps.push(Step::Set { a, k, v: tags.next(10), ts: None });
+						} else {
+							steps.push(Step::Set { a, k, v: tags.next(10), ts: Some(1) });
+							steps.push(Step::Set { a, k, v: tags.next(10), ts: Some(2) });
+						}
+						left[a as usize] = left[a as usize].saturating_sub(160);
 					} else {
 						let len = value_len(&mut rng).min(left[a as usize] / 2).max(8).min(left[a as usize] - 60);
 						steps.push(Step::Set { a, k, v: tags.next(len), ts: None });
@@ -697,12 +731,12 @@ fn gen_concurrent(case_seed: u64, tier: Tier, id: &str) -> Plan {
 		}
 	}
 	steps.push(Step::Probe);
-	if id == "C04" && rng.chance(1, 3) {
+	if c04_faults {
 		// failure / rollback paths of the pipeline: transient write errors on the commit log
 		// (the conflict map entries of the failing commit are rolled back). Reads are not
 		// C04's subject and a failed append has known read-side effects (F5): no probes.
 		steps.retain(|s| !matches!(s, Step::Probe));
-		let n_f = rng.range(1, 3);
+		let n_f = rng.range(1, 5);
 		for _ in 0..n_f {
 			let at = rng.below(steps.len() as u64) as usize;
 			let action = *rng.pick(&[FaultAction::Eio, FaultAction::Enospc, FaultAction::Short(5)]);
@@ -732,6 +766,13 @@ fn gen_concurrent(case_seed: u64, tier: Tier, id: &str) -> Plan {
 		// probe readers right inside the rotation window of an apply
 		p.windows.push(Window { label: "apply.arena_full".into(), nth: rng.range(1, 3) as u32, steps: vec![Step::Probe] });
 		p.windows.push(Window { label: "apply.post_rotate".into(), nth: rng.range(1, 3) as u32, steps: vec![Step::Probe] });
+	}
+	if id == "C05" {
+		// tripwire inside rotate_memtable: only ever reached if the rotated memtable is, for a
+		// moment, in neither the active slot nor the immutable list with no lock held
+		for nth in 1..=3 {
+			p.windows.push(Window { label: "rotate.pre_register".into(), nth, steps: vec![Step::Probe] });
+		}
 	}
 	p
 }
@@ -1048,8 +1089,24 @@ fn gen_c14(case_seed: u64, _case: u64, tier: Tier) -> Plan {
 	let n2 = rng.range(1, 12 * scale);
 	phase(&mut rng, &mut steps, &mut tags, n2);
 	steps.push(Step::Probe); // warms the caches with data of the timeline to be discarded
+	if rng.chance(1, 2) {
+		// a flush right before the restore: the WAL clean-up it schedules on the runtime may
+		// only get its turn after the restore (see "defer_spawned")
+		write_txn(&mut rng, 0, nkeys, &mut tags, 3, 10, budget, &mut steps);
+		steps.push(if rng.chance(1, 2) { Step::Rotate } else { Step::FlushAll });
+		steps.push(Step::FlushOne);
+	}
 	steps.push(Step::Restore);
 	steps.push(Step::Probe);
+	// the guarantees hold right after the restore: a reader that began before a post-restore
+	// commit does not see it
+	steps.push(Step::Begin { a: 1, mode: ModeS::ReadOnly });
+	write_txn(&mut rng, 0, nkeys, &mut tags, 3, 10, budget, &mut steps);
+	steps.push(Step::Scan { a: 1, lo: None, hi: None, rev: false });
+	for _ in 0..rng.range(1, 3) {
+		steps.push(Step::Get { a: 1, k: rng.below(nkeys as u64) as u16 });
+	}
+	steps.push(Step::DropTxn { a: 1 });
 	let n3 = rng.range(1, 10 * scale);
 	phase(&mut rng, &mut steps, &mut tags, n3);
 	steps.push(Step::Probe);
@@ -1066,6 +1123,7 @@ fn gen_c14(case_seed: u64, _case: u64, tier: Tier) -> Plan {
 	}
 	let mut p = base_plan("C14", case_seed, opts, keys, steps);
 	p.gate_tasks = rng.chance(1, 2);
+	p.params.insert("defer_spawned".into(), rng.below(2) as i64);
 	p
 }
 
